@@ -14,7 +14,8 @@ type Sort struct {
 	Elem, Key *Sort
 	Width     int // bit-vectors
 	// struct datatype
-	Fields []*FieldInfo
+	Fields   []*FieldInfo
+	building bool
 }
 
 type SortKind int
